@@ -39,6 +39,10 @@ CHECKS = {
             "A process can only die between two durable effects, and the durable effects of an operation are exactly its store / Lightning calls: boundary invariants are asserted in the state right before every such call and at every return (the state a restart would find, for all inputs) of Swap, MintTokens, MeltTokens and RotateKeyset, and the same points cover a storage error injected at the call (the error return is a boundary too). Safety boundaries (newly stored signatures imply spent inputs / ISSUED quote; payment only with locked inputs) are proved at every point; reordering effects (signatures before spending, ISSUED after storing) fails a boundary. The atomicity boundaries that fail because operations span several transactions are genuine defects, confirmed by crash-injection replays and listed as known findings.",
             "Assumed: SQLite transaction atomicity and durability, restart = LoadMint on the same store (LoadMint itself is only swept partially). Known findings (open): multi-transaction windows of Swap, MintTokens, MeltTokens (lock vs. PENDING, internal settlement), RotateKeyset.",
             "DESIGN.md §8 C07"),
+    "C08": (True,
+            "Observation point = what wallet/client marshals and posts. Proved: the value handed to json.Marshal in PostSwap and PostMeltBolt11 is the request with every input's DLEQ pointer nil (call-site obligation for all request values; inputsWithoutDLEQ proved to copy every other field unchanged); static shape obligations (go/types, regenerated every run) pin the exported field lists of all seven request types and of BlindedMessage / Proof / DLEQProof, so that only swap and melt requests can carry proofs at all, outputs can carry neither a secret nor a blinding factor, and any new field fails the check; mint, restore, state-check and quote requests therefore have no position that could hold r, a DLEQ proof or an output secret. Token construction strips or includes DLEQ exactly as requested (contracts of NewTokenV3/NewTokenV4, shared with C14).",
+            "NOT decided: covert encodings inside opaque strings (a secret placed into Witness or Quote by wallet code is not tracked: no information-flow analysis), the websocket client, HTTP headers/URLs. Assumed: encoding/json emits exactly the exported fields of the value it is given.",
+            "DESIGN.md §8 C08"),
     "C09": (True,
             "GenerateKeyset proved to produce, for all (master, index): the 60 keys at amounts 2^0..2^59 as the children H+0..H+59 of m/0'/0'/index' (private scalar and public point), with the given fee/active flag - the keyset is a function of seed and index; keyset id shape proved (\"00\" + 14 hex chars of a 32-byte digest), sorted concatenation bounded (bounded/keysetid); RotateKeyset: representation invariant (one active keyset, filed under its id) preserved, old keysets keep keys, fee and id, the stored row carries exactly (new id, old index + 1, requested fee, active), the old row is only deactivated; signBlindedMessages signs only under the active keyset id and refuses others; verifyProofs takes the key from the proof's own keyset; TransactionFees charges each proof its own keyset's fee (spec sum).",
             "Assumed: BIP32 derivation (hdkeychain) as an uninterpreted pure function, A-FLOAT (math.Pow(2, i) exact for i < 64). Bounded: sorted concatenation in DeriveKeysetId. Known finding (open): RotateKeyset crash window (C07). LoadMint's reconstruction loop is not under a functional contract.",
